@@ -453,7 +453,7 @@ vf::Spec spec(vf::Tier t)
     vf::Spec s;
     s.n_enum     = (std::uint64_t)NF * grid().size();
     s.n_random   = (std::uint64_t)NF * random_cases_per_fn(t);
-    s.batch      = 16;
+    s.batch      = VF_ASAN ? 256 : 16; // forking an ASan process is expensive
     s.timeout_s  = 900;
     s.exhaustive = true;
     return s;
@@ -514,9 +514,10 @@ void run_case(vf::Case& c)
             fn.pair(x, xv, T(0));
         } else if (fn.reduced) {
             for (std::size_t j = (std::size_t)(i % 4); j < g.size(); j += 4) { fn.pair(x, xv, g[j]); }
-        } else if (VF_ASAN && fn.three) {
-            // sanitizer stratum: every row, every 8th column (rotating), whole z list
-            for (std::size_t j = (std::size_t)(i % 8); j < g.size(); j += 8) { fn.pair(x, xv, g[j]); }
+        } else if (VF_ASAN) {
+            // sanitizer stratum: every row, every 4th (three-argument functions: 16th) column, rotating with the row
+            std::size_t const st = fn.three ? 16 : 4;
+            for (std::size_t j = (std::size_t)(i % st); j < g.size(); j += st) { fn.pair(x, xv, g[j]); }
         } else {
             for (T yv : g) { fn.pair(x, xv, yv); }
         }
